@@ -112,6 +112,9 @@ def gen_case(rng, family='any'):
             w = [[a_, r_ / sum(raw) * (1.0 + eps)] for (a_, _), r_ in zip(w, raw)]
             near_unit = True
         alpha = {'fixed': w}
+        if len(assets) >= 3 and len(w) == len(assets) and rng.random() < 0.15:
+            # the alpha model weights an asset that is not in the universe (its data are there): it is traded all the same
+            uni = {'static': assets[:-1]}
     elif family == 'dynamic':
         dates = []
         late = {}
@@ -209,6 +212,10 @@ def gen_case(rng, family='any'):
         zs = [z for z in common.ZONES if common.ts_in(case['burn'], z).date() == common.ts(case['burn']).date()]
         if zs:
             case['burn_tz'] = rng.choice(zs)
+    if rng.random() < 0.25:
+        sib_reb = rng.choice([case['rebalance'], case['rebalance'], 'weekly', 'daily', 'end_of_month'])
+        case['sibling'] = dict(rebalance=sib_reb, weekday=(rng.choice([w for w in ['MON', 'TUE', 'WED', 'THU', 'FRI'] if w != case['weekday']])
+                                                          if sib_reb == 'weekly' else None))
     # the console-output switch (settings.PRINT_EVENTS) is on for some sessions: what a session does never depends on it
     case['loud'] = rng.random() < 0.25
     return case
